@@ -7,7 +7,7 @@ REPO = os.environ.get('VERIF_REPO', '/repo')
 KANI_DIR = os.environ.get('VERIF_KANI_DIR', os.path.join(VERIF, 'kani'))
 CACHE = os.path.join(VERIF, '.cache')
 KTARGET = os.environ.get('VERIF_KTARGET', os.path.join(CACHE, 'kani-target'))
-NTARGET = os.path.join(CACHE, 'native-target')
+NTARGET = os.environ.get('VERIF_NATIVE_TARGET', os.path.join(CACHE, 'native-target'))
 KNOWN_FILE = os.path.join(VERIF, 'KNOWN_FINDINGS.txt')
 
 ENV = dict(os.environ, CARGO_NET_OFFLINE='true', CARGO_TERM_COLOR='never')
